@@ -9,6 +9,12 @@ TB = "CPython 3.12, crosshair-tool 0.0.110, z3 5.1; the import shim of lib/repo_
 
 # id -> (category, technique, text, note, design_ref, engine)
 CHECKS = {
+    "C10": ("model_checking",
+            "real check() with the iteration order of every set inside the compiler chosen by the solver (import-hook AST rewriting of the current source; CrossHair/z3 enumerates the order decisions); outcome compared with the canonical-order outcome",
+            "Restricted to set-iteration order in the front end: all modules of guppylang_internals are recompiled from source so that for/comprehension/iter/list/tuple/star over a set and set.pop() ask a controller; "
+            "on 10 programs (several simultaneous faults / several live variables) the first K order decisions per site group are symbolic; the rendered diagnostic or the dump of the checked CFG (block signatures = port order) must not change. "
+            "Sites that received a real set are listed in the evidence; other sites are unexercised, not cleared.",
+            TB + "; lib/setorder.py rewriting; assumption that set order is the only channel for hash-seed/heap-layout dependence", "DESIGN.md §5 C10", "E1"),
     "C21": ("model_checking",
             "CrossHair/z3 symbolic execution of the real comptime dunder dispatch (DunderMixin + fall-back wrappers) and the real regular-mode _synthesize_binary under the same symbolic type-check outcomes",
             "Restricted to operator dispatch: for each of 18 binary operators, operand kinds (traced value / Python constant on either side) and outcomes of the direct and reflected method, the call the comptime path "
